@@ -468,9 +468,6 @@ class Ctx:
             return
         if res.failed:
             res.status = "fail"
-        elif res.witness_missing and not q.nowitness:
-            res.status = "inconclusive"
-            res.reason += "vacuous: witness not reachable: %s; " % ",".join(res.witness_missing[:4])
         elif not res.witness_ok and not q.nowitness:
             res.status = "inconclusive"
             res.reason += "harness has no witness; "
